@@ -32,6 +32,8 @@ pub struct Swarm {
     pub client_mix: [u32; 7],
     pub long_chain: bool,
     pub script: Option<LongScript>,
+    /// scripted opening of a run (emitted before random generation takes over)
+    pub prelude: std::collections::VecDeque<Event>,
 }
 
 /// Scripted generator for long two-branch histories (testnet/regtest depth bound, retargets).
@@ -107,6 +109,7 @@ pub fn draw_config(profile: &str, seed: u64, tier_thorough: bool) -> (RunConfig,
         client_mix: [0; 7],
         long_chain: false,
         script: None,
+        prelude: Default::default(),
     };
     if network != "regtest" {
         // natural difficulties only vary through retargets; use overrides on all networks
@@ -297,6 +300,58 @@ pub fn draw_config(profile: &str, seed: u64, tier_thorough: bool) -> (RunConfig,
             backdate,
             ..Default::default()
         });
+    }
+    if sw.script.is_none() && matches!(profile, "C01" | "C02" | "C03" | "C04" | "C05" | "C07" | "C20") && rng.chance(1, 24) {
+        // Scripted opening "threshold raised while the anchor's ingestion is paused": the anchor `a`
+        // has a heavy one-block child `x` (stable under threshold 2) and a light three-block
+        // branch y1-y2-y3; a's ingestion is paused, the threshold goes up so that x is no longer
+        // stable (through set_config or through the post_upgrade argument), ingestion completes.
+        // The anchor must then advance to x, the child on the chain being served.
+        threshold = 2;
+        let mk = |id: usize, parent: usize, ntx: u8, difficulty: u64, rng: &mut Rng| {
+            Event::Mine(MineSpec {
+                id,
+                parent,
+                seed: rng.next_u64(),
+                ntx,
+                dt: 600,
+                difficulty,
+                special: Special::None,
+                mutation: Mutation::None,
+                remine: 0,
+            })
+        };
+        let mut q = std::collections::VecDeque::new();
+        q.push_back(mk(1, 0, 3, 1, &mut rng));
+        q.push_back(mk(2, 1, 1, *rng.pick(&[20u64, 9, 40]), &mut rng));
+        q.push_back(mk(3, 1, 2, 1, &mut rng));
+        q.push_back(mk(4, 3, 0, 1, &mut rng));
+        q.push_back(mk(5, 4, 1, 1, &mut rng));
+        q.push_back(Event::Heartbeat { pause_at: 0 });
+        q.push_back(Event::Deliver {
+            task: 0,
+            reply: ReplySpec::Honest { max_blocks: 8, max_next: 0, page: 4_000_000, lag: 0, include_invalid: false },
+            pause_at: 0,
+        });
+        q.push_back(Event::Heartbeat { pause_at: 0 });
+        // genesis has one slice check; pause inside `a`
+        q.push_back(Event::Heartbeat { pause_at: *rng.pick(&[3u64, 4, 5]) });
+        let up = ConfigSpec {
+            threshold: Some(*rng.pick(&[60u32, 100, 144])),
+            syncing: None,
+            api_access: None,
+            sync_flag: None,
+            lazy_fees: None,
+            fees: None,
+        };
+        if rng.chance(1, 3) {
+            q.push_back(Event::Upgrade { arg: Some(up) });
+        } else {
+            q.push_back(Event::SetConfig(up));
+        }
+        q.push_back(Event::Heartbeat { pause_at: 0 });
+        q.push_back(Event::Heartbeat { pause_at: 0 });
+        sw.prelude = q;
     }
     let lazy_fees = rng.chance(1, 2);
     let sync_flag = profile == "C14" && rng.chance(3, 4);
@@ -810,6 +865,12 @@ fn long_next(sw: &mut Swarm, w: &World, rng: &mut Rng) -> Event {
 
 /// Draws the next event.
 pub fn next_event(sw: &mut Swarm, w: &World, rng: &mut Rng) -> Event {
+    if let Some(ev) = sw.prelude.pop_front() {
+        return match ev {
+            Event::Deliver { .. } if w.tasks.is_empty() => Event::Heartbeat { pause_at: 0 },
+            e => e,
+        };
+    }
     if sw.script.is_some() {
         return long_next(sw, w, rng);
     }
@@ -881,7 +942,7 @@ pub fn draw_config_change(sw: &Swarm, w: &World, rng: &mut Rng) -> ConfigSpec {
             1 => c.syncing = Some(true),
             _ => c.threshold = Some(*rng.pick(&[1u32, 2, 3, 6])),
         },
-        "C15" => match rng.below(3) {
+        "C15" | "C02" => match rng.below(3) {
             0 => c.lazy_fees = Some(rng.chance(1, 2)),
             _ => c.threshold = Some(*rng.pick(&[1u32, 2, 3, 6])),
         },
